@@ -102,7 +102,10 @@ func vpC08_O1() {
 	switch {
 	case hasNonrev:
 		if vpBool("mutateNonrev") {
-			mutation = 11 + vpChoose("nonrevMutation", 5)
+			mutation = 11 + vpChoose("nonrevMutation", 6)
+			if mutation == 16 {
+				mutation = 22 // (16..21 are the range proof mutations)
+			}
 		}
 	case hasRange:
 		if vpBool("mutateRange") {
@@ -152,6 +155,13 @@ func vpC08_O1() {
 	case 15:
 		vpAssume(hasNonrev)
 		p.NonRevocationProof.SignedAccumulator, mandatoryGone = nil, true
+	case 22: // a response under another name: the count is right, one of the expected names is missing
+		vpAssume(hasNonrev)
+		names := []string{"beta", "delta", "epsilon", "zeta"}
+		name := names[vpChoose("rekeyed", 4)]
+		p.NonRevocationProof.Responses["gamma"] = p.NonRevocationProof.Responses[name]
+		delete(p.NonRevocationProof.Responses, name)
+		mandatoryGone = true
 	case 16:
 		vpAssume(hasRange)
 		rp.K, mandatoryGone = nil, true
